@@ -30,7 +30,8 @@ package query_context
 //@   requires m != nil && atMostOneOPT(m.Extra) && okRRs(m.Extra)
 //@   modifies m.Extra, elems(m.Extra)
 //@   ensures noOPT(m.Extra)
-//@   ensures result == nil ==> old(noOPT(m.Extra)) && len(m.Extra) == old(len(m.Extra)) && (forall k int :: 0 <= k && k < len(m.Extra) ==> m.Extra[k] == old(m.Extra[k]))
+//@   ensures result == nil ==> old(noOPT(m.Extra)) && m.Extra == old(m.Extra) && sameElems(old(m.Extra))
+//@   ensures old(noOPT(m.Extra)) ==> result == nil
 //@   ensures result != nil ==> len(m.Extra) == old(len(m.Extra)) - 1 && (exists k int :: 0 <= k && k < old(len(m.Extra)) && old(isOPT(m.Extra[k])) && old(m.Extra[k].val) == result)
 //@   loop 0:
 //@     invariant 0 - 1 <= i && i < len(m.Extra) && (forall k int :: i < k && k < len(m.Extra) ==> !isOPT(m.Extra[k]))
@@ -80,6 +81,7 @@ package query_context
 //@   ensures m != nil ==> noOPT(m.Extra)
 //@   ensures m != nil && ctx.upstreamOpt != nil ==> len(m.Extra) == old(len(m.Extra)) - 1 && (exists k int :: 0 <= k && k < old(len(m.Extra)) && old(isOPT(m.Extra[k])) && old(m.Extra[k].val) == ctx.upstreamOpt)
 //@   ensures m != nil && ctx.upstreamOpt == nil ==> old(noOPT(m.Extra)) && len(m.Extra) == old(len(m.Extra))
+//@   ensures m != nil && old(noOPT(m.Extra)) ==> ctx.upstreamOpt == nil && m.Extra == old(m.Extra) && sameElems(old(m.Extra))
 
 //@ func copyMap [C15]
 //@   ensures (m == nil) == (result == nil)
